@@ -9,8 +9,10 @@ VARIABLES lost,      \* ids legitimately gone with a file removed by the environ
           pvis,      \* ids visible anywhere at the previous observation
           pmv,       \* obs.moved of the previous observation
           frozen,    \* contents of the families left behind by Reset, as observed at the reset
-          pending    \* "" | "reopen" | "reset": the next visible record must land in the family at the path
-mvars == <<bvars, lost, pvis, pmv, frozen, pending>>
+          pending,   \* "" | "reopen" | "reset": the next visible record must land in the family at the path
+          unl        \* the environment has REMOVED the file the writer holds, and the writer has not opened another one
+                     \* since (reopen_output, a rotation, a restart): what it writes is gone with the removed file
+mvars == <<bvars, lost, pvis, pmv, frozen, pending, unl>>
 
 RECURSIVE CatM(_)
 CatM(M) == IF M = <<>> THEN <<>> ELSE Head(M).recs \o CatM(Tail(M))
@@ -20,16 +22,22 @@ Ids(s) == {s[j][1] : j \in 1..Len(s)}
 NoDup(s) == \A a, b \in 1..Len(s) : a # b => s[a][1] # s[b][1]
 Unbuffered(cc) == cc.mode \in {"direct", "capture"}
 
-MInit == BaseInit /\ lost = {} /\ pvis = {} /\ pmv = <<>> /\ frozen = <<>> /\ pending = ""
+MInit == BaseInit /\ lost = {} /\ pvis = {} /\ pmv = <<>> /\ frozen = <<>> /\ pending = "" /\ unl = FALSE
 
 Places(o) == CatM(o.moved) \o CatP(o.prev) \o Stream(o.files)
+\* a family file with a name that the previous observation did not show
+NewName(e) == e.o /\ \E j \in 1..Len(e.obs.files) : \A i \in 1..Len(prev) : prev[i].name # e.obs.files[j].name
 
 Upd ==
     LET e == E IN
-    IF e.ev = "Begin" THEN lost' = {} /\ pvis' = {} /\ pmv' = <<>> /\ frozen' = <<>> /\ pending' = ""
+    IF e.ev = "Begin" THEN lost' = {} /\ pvis' = {} /\ pmv' = <<>> /\ frozen' = <<>> /\ pending' = "" /\ unl' = FALSE
     ELSE
+    /\ unl' = IF e.ev = "ExtRemove" /\ Ok(e) /\ live THEN TRUE
+              ELSE IF e.ev \in {"Reopen", "Reset", "Stop", "Start"} THEN FALSE
+              ELSE IF NewName(e) THEN FALSE ELSE unl          \* (a rotation has opened another file)
     /\ lost' = IF e.ev = "ExtRemove" /\ Ok(e) /\ live
                THEN lost \cup UNION {IdsIn(f.recs) : f \in ToSet(FileNamed(prev, e.file))} \cup (Ids(acc) \ pvis)
+               ELSE IF unl /\ e.ev = "Log" /\ Ok(e) /\ ~NewName(e) THEN lost \cup {e.id}
                ELSE lost
     /\ pvis' = IF e.o THEN Ids(Places(e.obs)) ELSE pvis
     /\ pmv' = IF e.o THEN e.obs.moved ELSE pmv
